@@ -54,3 +54,11 @@ Fixpoint ns_route_all (s : ns_state) (pks : list bytes) : option (list N) :=
 
 Definition ns_hosting (pnum : N) (hosted_pids : list N) : ns_state :=
   {| meta := Some pnum; hosted := hosted_pids; last_conf := Some pnum |}.
+
+(* MGET on a node that hosts only some partitions (server/server.go GetHandleNode): every key must be routable on
+   this node AND to the same partition as the first key; otherwise the command is rejected *)
+Definition ns_mget_route (s : ns_state) (pks : list bytes) : option N :=
+  match ns_route_all s pks with
+  | Some (p :: r) => if forallb (N.eqb p) r then Some p else None
+  | _ => None
+  end.
